@@ -4,6 +4,14 @@ Proof      : coq/Props/C12.v over Gen/GenFilter.v (the expression _build_conditi
              to_pyarrow_compute_expression) and Gen/GenFilterConst.v (operator alias table, between /
              is_null alias tuples), REGENERATED from filters.py on every run; Model/Filter.v (pyarrow
              primitive semantics eval3, parse, the read pipelines of transaction.py after the repairs).
+             Tables with a HISTORY: Model/Manifest.v (manifest entries, commit_tx = Transaction._commit_file_ops: every
+             manifest of the base snapshot kept / rewritten from its survivors / dropped, then one manifest of all appended
+             files; run = any sequence of commits; table_files = Table._get_all_data_files) over Gen/GenManifest.v (the
+             bound expressions of create_manifest_file / read_manifest_file, the survivor test and the keep / rewrite / drop
+             decision, REGENERATED from file_manager.py / transaction.py; fail-closed on anything but the modelled codec
+             pair) and Gen/GenBound.v.  C12_manifest_roundtrip, C12_rewrite_decision, C12_history_view (for ANY history the
+             decoded entries of the manifests are the flat list semantics spec_run: deleted files removed, appended added,
+             bounds untouched), C12_history_files, C12_history_sql (every API returns the SQL answer on the live files).
 Oracles    : implementation only, judged by harness/lib/sqlref.py (plain Python, no datashard import); the oracle tables also
              carry column types for which the writer stores NO bounds (binary, fixed: bytes, compared lexicographically) next to
              columns with bounds, in several files -- wrong pruning on absent statistics makes every API agree on a wrong (empty)
@@ -14,6 +22,12 @@ Oracles    : implementation only, judged by harness/lib/sqlref.py (plain Python,
                malformed  enumerated malformed filters x {empty, populated, all-files-pruned table} x all APIs
                edges      per column type: empty / NULL-only / NULL-containing value sets, comparisons with NULL,
                           between with NULL or reversed bounds, every is_null alias, conjunctions, all-pruned
+               rewrites   per column type (and long text): a table whose manifests went through REWRITES (several files per
+                          transaction, partial deletes -- one manifest twice --, a mixed transaction, expiry, collection,
+                          fresh handle; harness/lib/c12_hist.py), literals at / around every live file's extremes + edge cases
+               histories  half of the e2e tables are built by a random history (transactions appending 1-4 files, deleting
+                          part of a manifest / whole manifests / across manifests, both at once, expiry, aborted transactions,
+                          garbage collection, reload); expected rows = rows of the files live by the harness' own list semantics
                corpus     the hand-confirmed failing inputs (F-C12 NaN pushdown, malformed filter on an empty table)
 Findings   : two defects of the unchanged tree (findings/C12-unchanged-tree.log, findings/C12-replay-*.json), both repaired on
              the library branch: (1) scan(filter, verify_checksums=False) pushed the filter into pq.read_table, whose row-group
@@ -25,6 +39,10 @@ Tie        : correspondence of every hand-written model piece with the real code
                parse      filters.parse_filter_dict                              vs parse (uses Gen tables)
                build      filters.to_pyarrow_compute_expression + Table.filter   vs build (uses Gen) + filter_rows
                pipelines  Table.scan / scan_batches / iter_records on real tables vs scan_table / scan_batches / iter_records
+                          (a third of the tables built by a history; the model scans the live files with exact bounds)
+               history    real histories vs Model/Manifest.v `run`: the current snapshot's manifests entry by entry (file,
+                          per bounded column the STORED tag and the value decoded from the stored string), the data files
+                          _get_all_data_files returns vs `table_files`, both vs the list semantics
 """
 from __future__ import annotations
 
@@ -83,16 +101,26 @@ MANIFEST_ENTRY = {
                   "(scan verify on/off, scan_batches with any batching, iter_records return the same rows or the same error for "
                   "every table, layout, projection and filter), C12_api_sql (that answer is project cols (filter sql (concat files)), "
                   "pruning included), C12_strict / C12_strict_everywhere / C12_operator_faithful / C12_operator_table (malformed "
-                  "filters raise in every API, accepted operators mean what the table says), C12_project_after -- proved in Coq, "
-                  "unbounded, over the filter compiler and operator tables regenerated from filters.py on every run; pyarrow "
-                  "primitive semantics, parser, builder and the four read pipelines tied to the real code by differential "
-                  "execution; implementation-only oracles (12 API variants vs an independent SQL evaluator) search for a failing input",
-    "level_note": "trusted: Coq kernel; translator/gen_filter.py; pyarrow primitive semantics as written in Model/Filter.v eval3 "
+                  "filters raise in every API, accepted operators mean what the table says), C12_project_after, and for tables "
+                  "with a HISTORY C12_history_view / C12_history_files / C12_history_sql (after any sequence of committed "
+                  "transactions -- multi-file appends, deletes that keep / rewrite / drop manifests, both at once -- the data "
+                  "files a scan finds and the bounds pruning reads are those of the flat list semantics, and every API returns "
+                  "the SQL answer on the live files), C12_manifest_roundtrip, C12_rewrite_decision -- proved in Coq, "
+                  "unbounded, over the filter compiler and operator tables regenerated from filters.py and the manifest bound "
+                  "expressions / rewrite decision regenerated from file_manager.py / transaction.py on every run; pyarrow "
+                  "primitive semantics, parser, builder, the four read pipelines and the manifest machine tied to the real code "
+                  "by differential execution; implementation-only oracles (12 API variants vs an independent SQL evaluator, on "
+                  "tables appended file by file and on tables built by random / directed histories) search for a failing input",
+    "level_note": "trusted: Coq kernel; translator/gen_filter.py, gen_manifest.py, gen_bound.py; JSON / Avro transport of a stored "
+                  "(tag, payload) pair and str(k) / int(k) of field ids taken as exact (validated by the 'history' correspondence); "
+                  "snapshot expiry, rolled-back transactions, garbage collection and re-opening modelled as not touching the "
+                  "current manifests (exercised by the oracles and the 'history' correspondence); pyarrow primitive semantics as written in Model/Filter.v eval3 "
                   "(validated by the 'prims' correspondence); oracles X (lossy is_in casts), E (literals pyarrow refuses at "
                   "evaluation), PA (literals pyarrow refuses when building) are universally quantified; errors are modelled per "
                   "row (a 0-row file never raises in the model); executor.map order preservation for parallel scans; date vs "
                   "timestamp comparisons (pyarrow casts, Python refuses) are outside the model and covered by the oracle only",
-    "technique": "Coq proof over translator-regenerated filter compiler + differential correspondence + independent SQL oracle",
+    "technique": "Coq proof over translator-regenerated filter compiler and manifest kernels (induction over transaction histories) "
+                 "+ differential correspondence + independent SQL oracle over random and directed table histories",
     "design_ref": "DESIGN.md section 5 C12",
 }
 
@@ -1403,7 +1431,7 @@ def corr_pipelines(ctx) -> None:
         # ... and some tables are built by a HISTORY (multi-file transactions, partial deletes that rewrite manifests, mixed
         # transactions, expiry): the model scans the LIVE files of the list semantics with their exact bounds
         # (C12_history_sql), so a bound that a manifest rewrite changed shows as a pruning disagreement too
-        case = gen_table_case(rng, KINDS, 0.0, 0.0, max_files=3, long_text=0.2, long_dom=MODEL_LONG_TEXT, history=0.4, max_steps=4)
+        case = gen_table_case(rng, KINDS, 0.0, 0.0, max_files=3, long_text=0.2, long_dom=MODEL_LONG_TEXT, history=0.35, max_steps=4)
         if case.get("history") is not None:
             with_history += 1
         reqs = []
@@ -1582,18 +1610,22 @@ def corr_history(ctx) -> None:
 
 # =================================================================================== driver
 def run(ctx) -> None:
-    ctx.rule = ("oracle: random tables (1-3 columns over 9 column types plus binary / fixed columns without stored bounds, 0-4 files, NULL / NaN / inf / single-valued files) x random filters "
+    ctx.rule = ("oracle: random tables (1-3 columns over 9 column types plus binary / fixed columns without stored bounds, 0-4 files appended one by one "
+                "OR built by a random history of multi-file / deleting / mixed / expiring / aborted transactions, collections and reloads; NULL / NaN / inf / single-valued files) x random filters "
                 "(all operator spellings in random case, between, in/not_in with empty / NULL-containing / cross-kind sets, is_null aliases, "
                 "conjunctions, 8% malformed) x projections x 12 API variants, judged by an independent SQL evaluator; a case is distinct by "
-                "its (files, filter, projection); correspondence: pyarrow primitives on exhaustive small domains, parser on enumerated + "
-                "random conditions, builder and pipelines on random tables")
+                "its (files, history, filter, projection); directed: per column type a table whose manifests were rewritten (twice), "
+                "literals at the live files' extremes; correspondence: pyarrow primitives on exhaustive small domains, parser on "
+                "enumerated + random conditions, builder and pipelines on random tables, manifest machine on random and directed histories")
     ctx.trusted_base += [
         "translator/gen_filter.py (Python ast -> Gallina for _build_condition handlers, the &-fold, the operator/alias tables; rest of "
         "parse_filter_dict / _parse_op / to_pyarrow_compute_expression pinned by golden AST)",
         "pyarrow primitive semantics as written in Model/Filter.v eval3 / select / select_lenient (validated by the 'prims', 'build' and "
         "'pipelines' correspondences against the installed pyarrow)",
         "oracles X, E, PA are universally quantified in every theorem (nothing assumed about lossy is_in casts, refused literals)",
-        "harness: harness/props/c12.py, harness/lib/sqlref.py (independent SQL evaluator), harness/lib/coqbuild.py",
+        "translator/gen_manifest.py (bound expressions of create_manifest_file / read_manifest_file, survivor test and keep / rewrite / "
+        "drop decision of _commit_file_ops; loop / call structure around them checked, fail-closed), translator/gen_bound.py",
+        "harness: harness/props/c12.py, harness/lib/c12_hist.py (histories and their list semantics), harness/lib/sqlref.py (independent SQL evaluator), harness/lib/coqbuild.py",
     ]
     ctx.assumptions += [
         "errors are modelled per row: a file or batch with 0 rows never raises in the model (the library cannot write 0-row files)",
@@ -1601,6 +1633,11 @@ def run(ctx) -> None:
         "all files of a table share the parquet schema `sch` (C11); projections are judged against it",
         "date vs timestamp comparisons (pyarrow casts, Python refuses) and inexact literals on float32 columns are outside the model; the oracle demands cross-API agreement there",
         "NaN membership (NaN in [NaN]) is judged by cross-API agreement only (DESIGN.md C12 Interpretation)",
+        "histories: every data file has its own path (uuid names; NoDup hypothesis of C12_history_files); paths are compared after stripping "
+        "leading '/' on both sides (pinned by the translator; the oracle deletes by both spellings); the JSON text and the Avro map between "
+        "_encode_bound and _decode_bound carry (tag, payload) exactly (Model/Bound.v; checked per entry by the 'history' correspondence)",
+        "the content of a table after a history is DEFINED by the list semantics (a committed transaction removes the files it deletes and "
+        "adds the files it appends); a file appended and deleted by the same transaction is not generated",
     ]
     import time
     timings: Dict[str, float] = {}
@@ -1633,6 +1670,8 @@ def replay(ctx, payload) -> int:
         return 2
     case, flt, columns = case_unjson(d)
     verdict, results = evaluate_case(ctx, case, flt, columns)
+    if case.get("history") is not None:
+        print("replay: table built by the history", case["history"], "-> live files", hist.live_indexes(case), "of", len(case["files"]))
     print("replay: filter", repr(sqlref.filter_py(flt)), "columns", columns)
     for k, v in results.items():
         print("   ", k, "->", v[1] if v[0] == "raises" else list(v[1]))
